@@ -821,7 +821,7 @@ func c14Run(c *core.Ctx) {
 }
 
 func c14Replay(c *core.Ctx, payload json.RawMessage) {
-	if c14ParallelReplay(c, payload) || c14PrimedReplay(c, payload) || c14ReleaseReplay(c, payload) || c14UdfReplay(c, payload) {
+	if c14ParallelReplay(c, payload) || c14PrimedReplay(c, payload) || c14ReleaseReplay(c, payload) || c14UdfReplay(c, payload) || c14CachedReplay(c, payload) {
 		return
 	}
 	var p c14Payload
